@@ -19,13 +19,20 @@ cells that does not exist (deleted) are made on the stale handle (`DeletedObject
 existed there is no handle and the harness answers `err Deleted` itself.  Values and graph nodes are attributed to
 cells ids through the implementation objects, including those of deleted cells (an orphaned implementation object
 that still held a value, or a graph node of it, would show up under the id).
+Model-level references (cells description key `"glob"` of the first cells: the reference ids that live in the MODEL,
+`M.r<j>`): every space resolves them, no space owns them.  Formulas read them with `("rg", j, form)`: by name, `_space.r`,
+through the other space (`Ch.r` / `_space.parent.r`), `_model.r`, `_space.Ch.r` / `_space.parent.Ch.r`.  `setref` / `delref`
+of such an id act on the model; `shadow r k v` defines (or changes) a reference of the SAME name in space k, `unshadow r k`
+deletes it again.  `copycell c k d` = `c<c>.copy(space k, "c<d>")` (the declared, absent id d comes into being as the copy),
+`copyspace` = `S.Ch.copy(S, "Cp")` (the copies of the cells of `Ch` get the ids 100 + i).  These have no counterpart in the
+Lean model: `impl_only(cells, ops)` says so and `run_both` then asks the implementation only.
 Limit and administrative ops: `maxdepth n` (`mx.set_recursion(n)`), `admin start|stop|get|clear|tracestack`
 (`mx.start_stacktrace()` … `with mx.trace_stack(): pass`), `admin getrecursion|geterror|gettraceback|setsame`
 (`mx.get_recursion()`, `mx.get_error()`, `mx.get_traceback()`, `mx.set_recursion(mx.get_recursion())`); the
 observation `maxdepth` is `mx.get_recursion()`.
 """
 from . import core
-from .expr import Renderer, sexp, parse_sexp, KINDS
+from .expr import Renderer, sexp, parse_sexp, model_sexp, subexprs, KINDS
 from .impl import mx, close_all, quiet, err_kind
 from modelx.core.errors import DeepReferenceError, NoneReturnedError, FormulaError
 
@@ -82,10 +89,24 @@ class deep_counter:
             DeepReferenceError.__init__ = init
 
 
+IMPL_ONLY_OPS = ("shadow", "unshadow", "copycell", "copyspace")
+COPY_BASE = 100         # id of the copy of cells i made by `copyspace`: COPY_BASE + i
+
+
+def impl_only(cells, ops):
+    """does the program or the history use vocabulary the Lean model does not have?"""
+    if cells and cells[0].get("glob"):
+        return True
+    if any(op[0] in IMPL_ONLY_OPS for op in ops):
+        return True
+    return any("(rg " in " ".join(op) for op in ops if op[0] in ("setformula", "newcell"))
+
+
 class ExecImpl:
     def __init__(self, cells, refs, n_rn, maxdepth=None, log=True, nested=False, recorder=None):
         self.cells_def = cells
         self.n_rn = n_rn
+        self.glob = set(cells[0].get("glob") or []) if cells else set()
         self.log = []
         self.nested = nested
         if not nested:
@@ -108,6 +129,7 @@ class ExecImpl:
             if recorder is not None:
                 self.m.zc = recorder.zc
                 self.m.zlog = recorder.zlog
+                self.m.zr = recorder.zr
                 log = True
             elif log:
                 self.m.zlog = self._log
@@ -115,8 +137,9 @@ class ExecImpl:
             for r, v in refs.items():
                 self.set_ref(r, v)
             self.cell_space = {c["id"]: int(c.get("space", 0)) for c in cells}
-            names = {"cell": self._cell_name, "rn": lambda r: "r%d" % r, "ra": self._attr_path}
-            self.rend = Renderer(names, "zlog" if log else None, "zc" if recorder is not None else None)
+            names = {"cell": self._cell_name, "rn": lambda r: "r%d" % r, "ra": self._attr_path, "rg": self._glob_path}
+            self.rend = Renderer(names, "zlog" if log else None, "zc" if recorder is not None else None,
+                                 "zr" if recorder is not None else None)
             self.cells = {}
             self.impls = {}         # cid -> every implementation object the id ever had (deleted ones included)
             self.ifaces = {}        # cid -> every interface object (handle) the id ever had
@@ -156,13 +179,28 @@ class ExecImpl:
                 pass
 
     def ref_space(self, r):
+        if r in self.glob:
+            return 2
         return 0 if r < self.n_rn else 1
 
     def space_obj(self, k):
-        return self.Ch if k else self.S
+        return self.m if k == 2 else self.Cp if k == 3 else self.Ch if k else self.S
 
     def set_ref(self, r, v):
         setattr(self.space_obj(self.ref_space(r)), "r%d" % r, v)
+
+    def _glob_path(self, r, form):
+        """how the formula being rendered reads the model-level reference r (expr.py, "rg")"""
+        here = self.cell_space.get(self.rend.cid, 0)
+        if form == 0:
+            return "r%d" % r
+        if form == 1:
+            return "_space.r%d" % r
+        if form == 2:
+            return ("Ch.r%d" if here == 0 else "_space.parent.r%d") % r
+        if form == 3:
+            return "_model.r%d" % r
+        return ("_space.Ch.r%d" if here == 0 else "_space.parent.Ch.r%d") % r
 
     # how the formula being rendered (`self.rend.cid`) spells a cells / a reference of space `k`
     def _path_to(self, k):
@@ -179,6 +217,8 @@ class ExecImpl:
         return "c%d" % c if p is None else "%s.c%d" % (p, c)
 
     def _attr_path(self, r):
+        if r in self.glob:
+            return self._glob_path(r, 1)
         p = self._path_to(self.ref_space(r))
         return "%s.r%d" % ("_space" if p is None else p, r)
 
@@ -273,6 +313,16 @@ class ExecImpl:
                     r = int(op[1])
                     delattr(self.space_obj(self.ref_space(r)), "r%d" % r)
                     return "ok"
+                if kind == "shadow":
+                    setattr(self.space_obj(int(op[2])), "r%d" % int(op[1]), parse_val(op[3]))
+                    return "ok"
+                if kind == "unshadow":
+                    delattr(self.space_obj(int(op[2])), "r%d" % int(op[1]))
+                    return "ok"
+                if kind == "copycell":
+                    return self.copy_cell(int(op[1]), int(op[2]), int(op[3]))
+                if kind == "copyspace":
+                    return self.copy_space()
                 if kind == "setformula":
                     cid = int(op[1])
                     c = next(x for x in self.cells_def if x["id"] == cid)
@@ -321,6 +371,37 @@ class ExecImpl:
                 raise
             return "err " + err_kind(e)
         return "bad-op"
+
+    def adopt(self, cid, cells, like, space):
+        """a cells that came into being as a copy gets the id `cid` (definition as cells `like`)"""
+        old = next(x for x in self.cells_def if x["id"] == like)
+        self.cells[cid] = cells
+        self.impls.setdefault(cid, []).append(cells._impl)
+        self.ifaces.setdefault(cid, []).append(cells)
+        self.cell_space[cid] = space
+        self.sources[cid] = self.sources.get(like)
+        self.linemaps[cid] = self.linemaps.get(like)
+        c = dict(old, id=cid, space=space)
+        c.pop("absent", None)
+        self.cells_def = [x for x in self.cells_def if x["id"] != cid] + [c]
+
+    def copy_cell(self, src, k, dst):
+        """`c<src>.copy(space k, "c<dst>")`: formula, flags and INPUT values go with the copy; the copy resolves every
+        name in space k"""
+        if self.exists(dst):
+            self.cells[src].copy(self.space_obj(k), "c%d" % dst)     # the name is taken: refused by the library
+            return "bad-op"
+        new = self.cells[src].copy(self.space_obj(k), "c%d" % dst)
+        self.adopt(dst, new, src, k)
+        return "ok"
+
+    def copy_space(self):
+        """`S.Ch.copy(S, "Cp")`: the copies of the cells of Ch get the ids COPY_BASE + i; the copied space has its own
+        references (copies of those of Ch)"""
+        self.Cp = self.Ch.copy(self.S, "Cp")
+        for cid in sorted(c for c, k in list(self.cell_space.items()) if k == 1 and self.exists(c)):
+            self.adopt(COPY_BASE + cid, self.Cp.cells["c%d" % cid], cid, 3)
+        return "ok"
 
     def admin(self, what):
         if what == "start":
@@ -422,23 +503,38 @@ def tri(v):
 
 
 def cell_line(c):
-    return "cell %d %d %s %d %s" % (c["id"], int(c["cached"]), tri(c["allow_none"]), c["nparams"], sexp(c["body"]))
+    return "cell %d %d %s %d %s" % (c["id"], int(c["cached"]), tri(c["allow_none"]), c["nparams"], model_sexp(c["body"]))
+
+
+def model_line(op):
+    """the op as the Lean driver reads it (formulas in the model's vocabulary)"""
+    if op[0] == "setformula":
+        return " ".join(op[:2]) + " " + model_sexp(parse_sexp(" ".join(op[2:])))
+    if op[0] == "newcell":
+        return " ".join(op[:5]) + " " + model_sexp(parse_sexp(" ".join(op[5:])))
+    return " ".join(op)
 
 
 def run_both(cells, refs, n_rn, maxdepth, ops, observe=OBS, log=True):
     """-> list of records {op, impl, model, obs: {what: (impl, model)}} ; one per op"""
     impl = ExecImpl(cells, refs, n_rn, maxdepth, log=log)
     try:
-        lines = model_prelude(cells, refs, maxdepth) + space_lines(cells, refs, n_rn)
+        only = impl_only(cells, ops)
+        lines = [] if only else model_prelude(cells, refs, maxdepth) + space_lines(cells, refs, n_rn)
         npre = len(lines)
         recs = []
         for op in ops:
             rec = {"op": op, "impl": impl.apply(op), "obs": {}}
-            lines.append(" ".join(op))
+            lines.append(model_line(op))
             for w in observe:
                 rec["obs"][w] = [impl.observe(w), None]
                 lines.append("obs " + w)
             recs.append(rec)
+        if only:
+            # vocabulary without a counterpart in the Lean model: the implementation-only oracles judge the history
+            for rec in recs:
+                rec["model"] = None
+            return recs
         out = core.run_driver("exec", lines)
         for l in out[:npre]:
             if l != "ok":
